@@ -61,6 +61,44 @@ def run_stats_case(an, hist):
     return {"an": an, "events": evs}
 
 
+def exhaustive_stats(ctx: Ctx, L: int):
+    """spec -> code, exhaustive: every behaviour of MC_EpisodeStats (rewards {-1, 0, 2} x done x alpha in {1..4}/4, length L, one
+    environment) is executed on the real LoggingCallbackStepState.next (scanned and vmapped over all histories at once)"""
+    import itertools
+    import jax
+    import jax.numpy as jnp
+    import numpy as np
+    from lerax.callback import LoggingCallbackStepState
+    from ..drive_onpolicy import SD
+    steps = list(itertools.product((-1, 0, 2), (False, True)))
+    hists = list(itertools.product(steps, repeat=L))
+    R = jnp.asarray([[float(r) for r, _ in h] for h in hists], dtype=jnp.float32)
+    Dn = jnp.asarray([[d for _, d in h] for h in hists])
+
+    def run(rs, ds, alpha):
+        def body(st, x):
+            st = st.next(x[0], x[1], alpha)
+            return st, st
+        return jax.lax.scan(body, LoggingCallbackStepState.initial(), (rs, ds))[1]
+    traces, cases = [], []
+    for an in (1, 2, 3, 4):
+        out = jax.device_get(jax.jit(jax.vmap(lambda rs, ds: run(rs, ds, an / 4.0)))(R, Dn))
+
+        def fxs(x):
+            v = np.asarray(x, dtype=np.float64) * SD
+            return np.where((np.abs(v - np.round(v)) < 1e-2) & (np.abs(v) < 2e9), np.round(v), 7777777).astype(np.int64)
+        ret = np.asarray(out.episode_return, dtype=np.float64)
+        ret_i = np.where(np.abs(ret - np.round(ret)) < 1e-4, np.round(ret), 7777777).astype(np.int64)
+        step, ln, latch = np.asarray(out.step), np.asarray(out.episode_length), np.asarray(out.episode_done)
+        aR, aL = fxs(out.average_return), fxs(out.average_length)
+        for i, h in enumerate(hists):
+            evs = [{"r": int(r), "d": bool(d), "st": dict(step=int(step[i, t]), ret=int(ret_i[i, t]), len=int(ln[i, t]), latch=bool(latch[i, t]),
+                                                          avgR=int(aR[i, t]), avgL=int(aL[i, t]))} for t, (r, d) in enumerate(h)]
+            traces.append({"an": an, "events": evs})
+            cases.append({"an": an, "hist": [[int(r), bool(d)] for r, d in h]})
+    return traces, cases
+
+
 # ---------------------------------------------------------------- (c) backend records
 def record_traces(traces: list, onpolicy: bool) -> list:
     """group collector traces of one run into one log-record trace"""
@@ -184,6 +222,19 @@ def run(ctx: Ctx) -> Report:
         rep.violations.append(Violation("C19:next:" + "+".join(clauses),
                                         f"LoggingCallbackStepState.next, step {l} of history {cases[i]['hist']} (alpha={cases[i]['an']}/4): "
                                         f"failing clauses {clauses}: {traces[i]['events'][l - 1]}", "stats_next", cases[i]))
+    L = ctx.pick(4, 5)
+    xt, xc = exhaustive_stats(ctx, L)
+    xv = tracecheck.validate(ctx, "trace/Trace_EpisodeStats.tla", xt, "stats_exh", procs=ctx.pick(4, 12))
+    rep.states += xv.distinct
+    rep.transitions += xv.generated
+    rep.traces += len(xt)
+    rep.evaluations += len(xt) * L
+    rep.parts["S2C_stepstate_next_exhaustive"] = {"histories": len(xt), "length": L, "rewards": [-1, 0, 2], "alphas": [1, 2, 3, 4],
+                                                  "accepted": len(xv.accepted), "rejected": len(xv.rejected)}
+    for i, (l, clauses) in sorted(xv.rejected.items())[:50]:
+        rep.violations.append(Violation("C19:next:" + "+".join(clauses),
+                                        f"LoggingCallbackStepState.next, step {l} of history {xc[i]['hist']} (alpha={xc[i]['an']}/4): "
+                                        f"failing clauses {clauses}: {xt[i]['events'][l - 1]}", "stats_next", xc[i]))
     bad = copy.deepcopy(traces[next(iter(sorted(v.accepted)))])
     bad["events"][-1]["st"]["len"] += 1
     vb = tracecheck.validate(ctx, "trace/Trace_EpisodeStats.tla", [bad], "stats_selftest")
